@@ -1,12 +1,14 @@
 //! C04 — endian-aware integer reads return the exact value and advance exactly.
 use super::{ex, scale, st, PropDef, Stratum};
 use crate::codec::get_int;
-use crate::ctx::{hex, Ctx, Tier};
+use crate::ctx::{Ctx, Tier};
 use elf::endian::{AnyEndian, BigEndian, EndianParse, LittleEndian, NativeEndian};
 
 pub const DEF: PropDef = PropDef { id: "C04", strata, run, setup, canaries: &["panic"] };
 
 fn setup(ctx: &mut Ctx) {
+    #[cfg(all(target_pointer_width = "64", not(miri)))]
+    ctx.floor("reads-at-offsets>=2^32-16", 32);
     ctx.floor("reads_ok", 1000);
     ctx.floor("reads_short_err", 100);
     ctx.floor("reads_offset_overflow_err", 10);
@@ -28,6 +30,8 @@ fn strata(t: Tier) -> Vec<Stratum> {
         // every offset 2^k + d, k = 1..BITS-1, d in -9..=len+9, on buffers of length 0..=16
         ex("power-of-two-offsets", scale(t, usize::BITS as u64 - 1, usize::BITS as u64 - 1, 6)),
         st("wide-random", scale(t, 600_000, 6_000_000, 30)),
+        // reads at offsets around and beyond 2^32 of a buffer that really is longer than 4 GiB (native 64-bit only)
+        st("beyond-4GiB", scale(t, 64, 640, 0)),
     ]
 }
 
@@ -120,7 +124,7 @@ fn check_one<E: EndianParse>(ctx: &mut Ctx, spec: &str, e: E, big: bool, ty: Ty,
                 ctx.set_input(buf);
                 ctx.violation(
                     &format!("{}:{}:value", ty.name(), spec),
-                    format!("{} with {} at offset {} of {}: expected {:#x}, got {:?}", ty.name(), spec, off, hex(buf), v, got),
+                    format!("{} with {} at offset {} of {}: expected {:#x}, got {:?}", ty.name(), spec, off, hexw(buf, off), v, got),
                 );
             } else if new_off != off + ty.w() {
                 ctx.set_input(buf);
@@ -181,7 +185,7 @@ fn check_concrete(ctx: &mut Ctx, ty: Ty, off: usize, buf: &[u8]) {
                 ctx.set_input(buf);
                 ctx.violation(
                     &format!("{}:{}:direct-call", ty.name(), $name),
-                    format!("{}.{}(&mut {off}, {}) returned {:?} and left the offset at {o}; expected {:?} and offset {}", $name, ty.name(), hex(buf), r, exp, if exp.is_some() { off + ty.w() } else { off }),
+                    format!("{}.{}(&mut {off}, {}) returned {:?} and left the offset at {o}; expected {:?} and offset {}", $name, ty.name(), hexw(buf, off), r, exp, if exp.is_some() { off + ty.w() } else { off }),
                 );
             }
         }};
@@ -217,8 +221,51 @@ const WIDE_PATTERNS: [u64; 25] = [
     0xfffe_fdfc_fbfa_f9f8, 0x8081_8283_8485_8687,
 ];
 
+/// the buffer in hex, or for a large buffer the 32 bytes around `off`
+fn hexw(buf: &[u8], off: usize) -> String {
+    if buf.len() <= 256 {
+        crate::ctx::hex(buf)
+    } else {
+        let a = off.saturating_sub(16).min(buf.len());
+        let b = off.saturating_add(16).min(buf.len());
+        format!("a {}-byte buffer, bytes [{a:#x},{b:#x}) = {}", buf.len(), crate::ctx::hex(&buf[a..b]))
+    }
+}
+
+fn huge_case(ctx: &mut Ctx) {
+    let seed = ctx.rng.next_u64();
+    let done = super::util::with_huge_buffer(|buf| {
+        let len = buf.len();
+        let mut rng = crate::rng::Rng::new(seed);
+        // a 96-byte window of random bytes straddling 2^32 (or the end of the buffer, or 2^32 exactly)
+        let base: usize = match rng.below(4) {
+            0 => (1usize << 32) - 48,
+            1 => (1usize << 32) - 8 - rng.usize_below(8),
+            2 => 1usize << 32,
+            _ => len - 96,
+        };
+        for i in 0..96 {
+            buf[base + i] = rng.next_u64() as u8;
+        }
+        let view: &[u8] = buf;
+        for off in base.saturating_sub(9)..base + 100 {
+            for ty in [Ty::U8, Ty::U16, Ty::U32, Ty::U64, Ty::I32, Ty::I64] {
+                check_all_specs(ctx, ty, off, view, off % 32 == 0);
+            }
+        }
+        ctx.count("reads-at-offsets>=2^32-16");
+        for i in 0..96 {
+            buf[base + i] = 0;
+        }
+    });
+    if done.is_none() {
+        ctx.count("beyond-4GiB:not-on-this-target");
+    }
+}
+
 fn run(ctx: &mut Ctx, si: usize, case: u64) {
     match si {
+        4 => huge_case(ctx),
         0 => {
             let (len, off) = sweep_case(case);
             let mut buf: Vec<u8> = (0..len).map(|i| ((i * 37 + 11) & 0xff) as u8).collect();
@@ -297,7 +344,7 @@ fn run(ctx: &mut Ctx, si: usize, case: u64) {
                     buf[at + i] = (v >> shift) as u8;
                 }
             }
-            ctx.sample(|| format!("buf={} offsets 0..len+9 and near usize::MAX, 6 types x 5 specs", hex(&buf)));
+            ctx.sample(|| format!("buf={} offsets 0..len+9 and near usize::MAX, 6 types x 5 specs", crate::ctx::hex(&buf)));
             for _ in 0..8 {
                 let off = match ctx.rng.below(8) {
                     0 => usize::MAX - ctx.rng.usize_below(9),
